@@ -66,6 +66,18 @@ Unfound(kind, cls) ==
   THEN [k |-> "plain", loc |-> "-", idx |-> 0]
   ELSE NotFound
 
+(* Loader failures on such loads (property C39): the number of loader calls   *)
+(* the load makes when nothing is found (an explicit .css extension is looked *)
+(* up as it is, everything else through the candidate list), and the outcome  *)
+(* when the `at`-th call fails: a lookup error on any call that is made, or a *)
+(* read error on the call that finds the file, must end the compilation with  *)
+(* an error; an armed fault that never fires changes nothing.                 *)
+UnfoundCalls(kind, cls) == IF cls = "css" THEN 1 ELSE NCand(kind)
+FaultOutcome(kind, cls, present, at, fk) ==
+  IF /\ at >= 1 /\ at <= UnfoundCalls(kind, cls)
+     /\ (fk = "find" \/ (fk = "read" /\ present = 1 /\ cls = "css" /\ at = 1))
+  THEN "err" ELSE "baseline"
+
 AllDevs == {"candidate_major_search", "loadpath_prefixed_only"}
 
 DevMap(kind, where, present) ==
